@@ -10,7 +10,7 @@ Sched kit (DESIGN §4.3): labelled transition systems for the `schedules` proper
 * components: `Lock` (threading.Lock), `RLock` (threading.RLock), `Sem` (threading.Semaphore /
   BoundedSemaphore).  Each is a small state with partial operations; the lemmas about them (owner,
   count, mutual exclusion, permit conservation) are in `VgiVerif/Lemmas/Sched.lean`.
-* `upd` — function update for per-thread maps `Tid → α`.
+* `Timer` (threading.Timer: start / cancel / fire) and `upd` — function update for per-thread maps `Tid → α`.
 
 No imports beyond Lean core: this file is linked into the native driver.
 -/
@@ -155,5 +155,30 @@ def release (t : Tid) (s : Sem) : Option Sem :=
 /-- unpaired `release()` of a plain `Semaphore` (adds a permit) -/
 def releaseFree (s : Sem) : Sem := ⟨s.avail + 1, s.holders⟩
 end Sem
+
+/-! ### `threading.Timer` -/
+
+/-- life cycle of one `threading.Timer` object -/
+inductive Timer where
+  | idle        -- created, not started
+  | armed       -- started, waiting for its interval
+  | cancelled   -- `cancel()` called before it fired
+  | fired       -- the interval elapsed un-cancelled: the callback runs / has run
+deriving Repr, DecidableEq
+
+namespace Timer
+/-- `start()` (once) -/
+def start : Timer → Option Timer
+  | .idle => some .armed
+  | _ => none
+/-- `cancel()` is always allowed; it has no effect once the timer has fired -/
+def cancel : Timer → Timer
+  | .fired => .fired
+  | _ => .cancelled
+/-- the callback runs only for an armed, un-cancelled timer -/
+def fire : Timer → Option Timer
+  | .armed => some .fired
+  | _ => none
+end Timer
 
 end VgiVerif.Sched
